@@ -310,7 +310,14 @@ def _draw_chunked(strategy_of, n, chunk, seed, *parts):
     k = 0
     while len(out) < n:
         m = min(chunk, n - len(out))
-        out += hyp.draw_many(strategy_of(m), 2, seed, *(parts if k == 0 else parts + (k,)))[1]
+        got = hyp.draw_many(strategy_of(m), 2, seed, *(parts if k == 0 else parts + (k,)))
+        if len(got) < 2:            # example too large for Hypothesis: halve the chunk
+            if chunk <= 50:
+                raise RuntimeError("cannot draw calls")
+            chunk //= 2
+            k += 1
+            continue
+        out += got[1]
         k += 1
     return out
 
@@ -321,7 +328,7 @@ def _mv_shard(arg):
     part = harness.Part()
     outdir = os.path.join(tree.workdir(), "c36", "mv%d" % shard)
     name = "c36mv_%d" % shard
-    calls = _draw_chunked(mv_calls, ncalls, 1000, seed, "c36mv", shard)
+    calls = _draw_chunked(mv_calls, ncalls, 900, seed, "c36mv", shard)
     try:
         so = cybuild.build(MV_SRC, name, os.path.join(outdir, name), ext=".pyx", sanitize=True)
     except (cybuild.CythonError, cybuild.CCError) as e:
